@@ -1,6 +1,6 @@
 (* C18 — proofs, part 4: the decision procedure decides the Prop; consequences. *)
 From Coq Require Import String List ZArith Bool Lia.
-From Verif Require Import C18.Model C18.Spec C18.Proofs_Pass C18.Proofs_Round C18.Proofs_Gate.
+From Verif Require Import C18.Model C18.Spec C18.Proofs_Vec C18.Proofs_Pass C18.Proofs_Round C18.Proofs_Gate.
 Import ListNotations.
 Open Scope Z_scope.
 
@@ -70,9 +70,42 @@ Qed.
 Theorem prop_code_iff c ns rounds obs : prop_code c ns rounds obs = 0 <-> C18_holds c ns rounds obs.
 Proof. split; [apply check_hist_sound|apply check_hist_complete]. Qed.
 
-Theorem main_prop_code c ns rounds :
-  wf_rounds rounds = true -> prop_code c ns rounds (map fst (run c ns rounds ([], []))) = 0.
-Proof. intros H. apply prop_code_iff. apply main_holds. exact H. Qed.
+Theorem main_prop_code fx c ns rounds :
+  wf_rounds rounds = true -> prop_code c ns rounds (map fst (run_gen fx c ns rounds ([], []))) = 0.
+Proof. intros H. apply prop_code_iff. apply main_holds_gen. exact H. Qed.
+
+(* the strict gate: decision procedure and Prop *)
+Lemma strict_gate_ok_iff c h tbl evs : strict_gate_ok c h tbl evs = true <-> strict_gate_holds c h tbl evs.
+Proof.
+  unfold strict_gate_ok, strict_gate_holds. destruct (gating c); cbn [negb orb].
+  - rewrite forallb_forall. split.
+    + intros H _ e He. apply Z.leb_le. apply H. exact He.
+    + intros H e He. apply Z.leb_le. apply H; [reflexivity|exact He].
+  - split; [intros _ H; discriminate|reflexivity].
+Qed.
+Lemma check_strict_iff c : forall tbls obs h, check_strict c tbls obs h = 0 <-> strict_hist_holds c tbls obs h.
+Proof.
+  induction tbls as [|[tbl ps] t IH]; intros [|evs ot] h; cbn [check_strict strict_hist_holds]; try tauto.
+  destruct (strict_gate_ok c h tbl evs) eqn:E; cbn [negb].
+  - rewrite IH. apply strict_gate_ok_iff in E. tauto.
+  - split; [discriminate|]. intros [H _]. apply strict_gate_ok_iff in H. congruence.
+Qed.
+Theorem main_strict_code_fixed c ns rounds :
+  wf_rounds rounds = true -> strict_code c ns rounds (map fst (run_gen true c ns rounds ([], []))) = 0.
+Proof. intros H. apply check_strict_iff. apply strict_holds_fixed. exact H. Qed.
+
+Lemma strict_hist_nth c : forall tbls obs h i tbl ps evs,
+  strict_hist_holds c tbls obs h ->
+  nth_error tbls i = Some (tbl, ps) -> nth_error obs i = Some evs ->
+  strict_gate_holds c (rev (map fst (firstn i tbls)) ++ h) tbl evs.
+Proof.
+  induction tbls as [|[tbl0 ps0] t IH]; intros obs h i tbl ps evs H Ht Ho.
+  - destruct i; discriminate.
+  - destruct obs as [|evs0 ot]; [destruct i; discriminate|]. cbn [strict_hist_holds] in H.
+    destruct H as [H1 H2]. destruct i as [|i]; cbn [nth_error firstn map rev] in *.
+    + inversion Ht; inversion Ho; subst. exact H1.
+    + rewrite <- app_assoc. apply (IH ot (tbl0 :: h) i tbl ps evs H2 Ht Ho).
+Qed.
 
 (* ---------------------------------------------------------------- readable consequences *)
 
@@ -85,9 +118,9 @@ Lemma valid_pass_event c tbl prod : forall st evs st', valid_pass c tbl prod st 
     find_row x tbl = Some r /\ rcls r = src_cls prod /\
     over (uget x (fst stm)) (r_high prod r) = true /\
     targets prod tbl <> [] /\ all_pos (snd stm) = true /\
-    find_pod pv (r_pods prod r) = Some p /\ pfilt_ok p = true.
+    find_pod pv (r_pods prod r) = Some p /\ pfilt_ok p = true /\ fit_ok c prod tbl p = true.
 Proof.
-  induction 1 as [st|st x0 pv0 r p evs st' Hr Hc Ho Ht Ha Hp Hf Hv IH]; intros pre x pv post E.
+  induction 1 as [st|st x0 pv0 r p evs st' Hr Hc Ho Ht Ha Hp Hf Hfit Hv IH]; intros pre x pv post E.
   - destruct pre; discriminate.
   - destruct pre as [|e pre]; cbn [app] in E.
     + inversion E; subst. exists st, r, p. split; [constructor|].
@@ -97,20 +130,22 @@ Proof.
 Qed.
 
 (* no balancing when nobody is overloaded, nobody is underused, or everybody is underused *)
-Theorem nothing_when c ns rs ds :
+Theorem nothing_when fx c ns rs ds :
   wf_round rs = true ->
-  nothing_cond (table c ns rs) (pool_size c ns rs) = true -> fst (balance c ns rs ds) = [].
+  nothing_cond (table c ns rs) (pool_size c ns rs) = true -> fst (balance_gen fx c ns rs ds) = [].
 Proof.
-  intros Hwf Hn. unfold balance.
-  destruct (process_pool_round c (table c ns rs) (pool_size c ns rs) ds (table_wf c ns rs Hwf)) as [_ [H _]].
+  intros Hwf Hn. unfold balance_gen.
+  destruct (process_pool_round c (table c ns rs) (pool_size c ns rs) (pre_round fx (table c ns rs) ds)
+              (table_wf c ns rs Hwf)) as [_ [H _]].
   apply H. exact Hn.
 Qed.
 
-Theorem dry_run_silent c ns rs ds :
-  wf_round rs = true -> cdry c = true -> fst (balance c ns rs ds) = [].
+Theorem dry_run_silent fx c ns rs ds :
+  wf_round rs = true -> cdry c = true -> fst (balance_gen fx c ns rs ds) = [].
 Proof.
-  intros Hwf Hd. unfold balance.
-  destruct (process_pool_round c (table c ns rs) (pool_size c ns rs) ds (table_wf c ns rs Hwf)) as [H _].
+  intros Hwf Hd. unfold balance_gen.
+  destruct (process_pool_round c (table c ns rs) (pool_size c ns rs) (pre_round fx (table c ns rs) ds)
+              (table_wf c ns rs Hwf)) as [H _].
   apply H. exact Hd.
 Qed.
 
@@ -118,50 +153,6 @@ Qed.
 (* with non-negative pod usage the estimates only go down, so once the stop condition of a
    node holds it holds for the rest of the pass: "stops as soon as" = "never evicts once
    the condition is false" *)
-Fixpoint vle (a b : vec) : Prop :=
-  match a, b with
-  | x :: a', y :: b' => x <= y /\ vle a' b'
-  | [], [] => True
-  | _, _ => False
-  end.
-Definition vnonneg (v : vec) : Prop := Forall (fun x => 0 <= x) v.
-
-Lemma vle_refl a : vle a a.
-Proof. induction a; cbn; [exact I|split; [lia|assumption]]. Qed.
-Lemma vle_trans a : forall b d, vle a b -> vle b d -> vle a d.
-Proof.
-  induction a as [|x a IH]; intros [|y b] [|z d]; cbn; try tauto.
-  intros [H1 H2] [H3 H4]. split; [lia|eapply IH; eauto].
-Qed.
-Lemma vsub_vle a : forall q, length q = length a -> vnonneg q -> vle (vsub a q) a.
-Proof.
-  induction a as [|x a IH]; intros [|y q] Hl Hq; cbn in *; try discriminate; [exact I|].
-  inversion Hq; subst. split; [lia|apply IH; [lia|assumption]].
-Qed.
-Lemma over_mono t : forall u u', vle u' u -> over u' t = true -> over u t = true.
-Proof.
-  unfold over. induction t as [|y t IH]; intros [|x u] [|x' u'] Hle; cbn in *; try tauto; try discriminate.
-  destruct Hle as [H1 H2]. intros H. apply orb_true_iff in H. apply orb_true_iff.
-  destruct H as [H|H]; [left; apply Z.ltb_lt in H; apply Z.ltb_lt; lia|right; eapply IH; eauto].
-Qed.
-Lemma all_pos_mono : forall v v', vle v' v -> all_pos v' = true -> all_pos v = true.
-Proof.
-  unfold all_pos. induction v as [|x v IH]; intros [|x' v'] Hle; cbn in *; try tauto.
-  destruct Hle as [H1 H2]. intros H. apply andb_true_iff in H. destruct H as [Ha Hb].
-  apply andb_true_iff. split; [apply Z.ltb_lt in Ha; apply Z.ltb_lt; lia|eapply IH; eauto].
-Qed.
-
-Lemma uget_uset x y v m : uget x (uset y v m) = if y =? x then v else uget x m.
-Proof.
-  induction m as [|[k v0] t IH]; cbn [uset uget].
-  - reflexivity.
-  - destruct (k =? y) eqn:E1.
-    + apply Z.eqb_eq in E1. subst k. cbn [uget]. destruct (y =? x); reflexivity.
-    + cbn [uget]. destruct (k =? x) eqn:E2.
-      * apply Z.eqb_eq in E2. subst k. rewrite Z.eqb_sym, E1. reflexivity.
-      * exact IH.
-Qed.
-
 (* the estimates of state [s'] are below those of [s] *)
 Definition st_le (s' s : ustate) : Prop :=
   (forall x, uget x (fst s') = uget x (fst s) \/ vle (uget x (fst s')) (uget x (fst s))) /\
